@@ -73,7 +73,9 @@ def run(report):
 
     def one(c):
         with C.scratch("c14") as d:
-            return R.run_impl(d, print_row_justfile(c), R.cmdline(c["cfg"], c["invs"]), [], [], [])
+            # every command of the row prints to its standard output: `--quiet` must suppress that, for scripts too
+            return R.run_impl(d, print_row_justfile(c), R.cmdline(c["cfg"], c["invs"]), [],
+                              [("[T0.0]", "OUT-T00\n"), ("[T0.1]", "OUT-T01\n"), ("[S0.0]", "OUT-S00\n")], [])
 
     impl = C.pmap(one, cases)
     for c, m, r in zip(cases, model, impl):
@@ -89,6 +91,20 @@ def run(report):
             continue
         me = R.canon_model_events(m["events"], R.c_loq(c))
         distinct.add(json_key(me))
+        out = r.get("stdout") or ""
+        if isinstance(out, bytes):
+            out = out.decode("utf-8", "replace")
+        ran = any(e[0] in ("spawn", "script") for e in r["events"])
+        if row["vq"] == "quiet" and "OUT-" in out:
+            report.failure("c14-quiet-shows-output:%s" % ("script" if row["script"] else "linewise"),
+                           "--quiet did not suppress the output of a command",
+                           {"row": row, "justfile": print_row_justfile(c), "argv": R.cmdline(c["cfg"], c["invs"]), "stdout": out})
+            continue
+        if row["vq"] != "quiet" and ran and "OUT-" not in out:
+            report.failure("c14-output-lost", "the output of a command that ran did not reach just's standard output",
+                           {"row": row, "justfile": print_row_justfile(c), "argv": R.cmdline(c["cfg"], c["invs"]), "stdout": out,
+                            "events": r["events"]}, no_input=True)
+            continue
         # direct oracle on the implementation: the documented rule, for linewise recipes
         if not row["script"]:
             echoed = ["echo", "[T0.0] x"] in r["events"]
